@@ -170,7 +170,12 @@ pub struct C11;
 impl C11 {
     fn gen(g: &mut Gen, tier: Tier) -> TrainCase {
         let mut c = mixed_case(g, tier, 0.4);
-        c.simulation_days = [None, Some(1), Some(7), Some(365)][g.idx(4)];
+        // any positive number of days: fixed picks around one year and several years, or a free draw
+        c.simulation_days = match g.weighted(&[2, 4, 3]) {
+            0 => None,
+            1 => Some([1, 7, 365, 2, 30, 90, 364, 366, 367, 730, 731, 1461, 3653][g.idx(13)]),
+            _ => Some(g.int(1, 4000) as i32),
+        };
         c.scenario_year = [None, Some(2030), Some(2050), Some(7)][g.idx(4)];
         c.and_parts = g.bool(0.35);
         // 25 %: one or two default hybrid locomotives join the generated units
@@ -209,7 +214,7 @@ impl Property for C11 {
     }
     crate::typed_property!(C11, TrainCase);
     fn rule(&self) -> String {
-        "set-speed (60 %) and speed-limited (40 %) runs; per saved step train.pwr_whl_out == consist.pwr_out_req == consist.pwr_out (1e-8) == sum loco.pwr_out, cumulative wheel energy and its positive/negative parts identical at train, consist and summed-locomotive level; at the end consist fuel / battery totals == sums over components and (speed-limited) trip getters == totals x 365.25/simulation_days for annualize in {false,true}, days in {None,1,7,365}, scenario year in {None,2030,2050,7}; 35 % of the sims are built through the ..._and_parts sibling constructors. Non-trivial: both power signs and a mixed conventional/battery consist".into()
+        "set-speed (60 %) and speed-limited (40 %) runs; per saved step train.pwr_whl_out == consist.pwr_out_req == consist.pwr_out (1e-8) == sum loco.pwr_out, cumulative wheel energy and its positive/negative parts identical at train, consist and summed-locomotive level; at the end consist fuel / battery totals == sums over components and (speed-limited) trip getters == totals x 365.25/simulation_days for annualize in {false,true}, days None or 1..4000 (fixed picks around one and several years, or a free draw), scenario year in {None,2030,2050,7}; 35 % of the sims are built through the ..._and_parts sibling constructors. Non-trivial: both power signs and a mixed conventional/battery consist".into()
     }
     fn assumptions(&self) -> Vec<String> {
         train_assumptions()
